@@ -50,12 +50,18 @@ type callPlan struct {
 	log   []string
 	at    int
 	mode  byte // 'b' fail without effect, 'a' take effect, then answer the error
+	at2   int  // a second failing call (bursts), -1 = none
+	mode2 byte
 	hit   string
 }
 
-func (p *callPlan) arm(at int, mode byte) {
+func (p *callPlan) arm(at int, mode byte) { p.arm2(at, mode, -1, 'b') }
+
+// arm2 arms a burst: call `at` and call `at2` of the window fail
+func (p *callPlan) arm2(at int, mode byte, at2 int, mode2 byte) {
 	p.mu.Lock()
 	p.armed, p.n, p.log, p.at, p.mode, p.hit = true, 0, nil, at, mode, ""
+	p.at2, p.mode2 = at2, mode2
 	p.mu.Unlock()
 }
 
@@ -79,6 +85,10 @@ func (p *callPlan) call(name string) byte {
 	if i == p.at {
 		p.hit = name
 		return p.mode
+	}
+	if i == p.at2 && p.at2 >= 0 {
+		p.hit += "+" + name
+		return p.mode2
 	}
 	return 'n'
 }
@@ -339,6 +349,9 @@ type scenario struct {
 // overlay holds a tombstone for it, and the overlay worlds keep a copy of it in the lower layer
 const removedInSetup = 5
 
+// postBlob is received only after the failures have stopped
+const postBlob = 6
+
 // blobs 0..3 are acknowledged before every operation, blob 4 is not there; blob 3 is never the target
 // of a remove: the acknowledged, unrelated bystander
 func sweepScenarios() []scenario {
@@ -474,14 +487,15 @@ func checkState(w *sweepWorld, blobs []sweepBlob, must map[int]int, resolved map
 var notReached atomic.Int32
 
 type sweepResult struct {
-	calls map[string]int // scenario → lower-layer calls of the healthy op
-	cases map[string]int // scenario → faulted cases run
-	names map[string]bool
-	viol  []string
+	calls  map[string]int // scenario → lower-layer calls of the healthy op
+	cases  map[string]int // scenario → faulted cases run
+	names  map[string]bool
+	viol   []string
+	bursts int
 }
 
 // sweep runs all scenarios on worlds produced by mk.
-func sweep(mk func() (*sweepWorld, error), blobs []sweepBlob) (*sweepResult, error) {
+func sweep(mk func() (*sweepWorld, error), blobs []sweepBlob, bursts bool) (*sweepResult, error) {
 	res := &sweepResult{calls: map[string]int{}, cases: map[string]int{}, names: map[string]bool{}}
 	setup := func(sc scenario) (*sweepWorld, map[int]bool, error) {
 		w, err := mk()
@@ -537,17 +551,45 @@ func sweep(mk func() (*sweepWorld, error), blobs []sweepBlob) (*sweepResult, err
 			continue
 		}
 		res.calls[sc.name] = n
+		type spec struct {
+			k     int
+			mode  byte
+			k2    int
+			mode2 byte
+		}
+		var specs []spec
 		for k := 0; k < n; k++ {
 			modes := []byte{'b'}
 			if mutatingCall[log[k][strings.LastIndexByte(log[k], '.')+1:]] {
 				modes = append(modes, 'a')
 			}
 			for _, mode := range modes {
+				specs = append(specs, spec{k, mode, -1, 'b'})
+			}
+			if bursts {
+				// short bursts: the call right after (or one further) fails too – it may be a call the
+				// healthy run never makes, e.g. the undo of the failed step – in every combination of modes
+				for _, d := range []int{1, 2} {
+					for _, mode := range modes {
+						for _, mode2 := range []byte{'b', 'a'} {
+							specs = append(specs, spec{k, mode, k + d, mode2})
+						}
+					}
+				}
+			}
+		}
+		for _, sp := range specs {
+			{
+				k, mode := sp.k, sp.mode
 				w, present, err := setup(sc)
 				if err != nil {
 					return nil, err
 				}
 				tag := fmt.Sprintf("%s/call%d-%s-%c", sc.name, k, log[k], mode)
+				if sp.k2 >= 0 {
+					tag += fmt.Sprintf("+call%d-%c", sp.k2, sp.mode2)
+					res.bursts++
+				}
 				res.cases[sc.name]++
 				res.names[log[k][strings.LastIndexByte(log[k], '.')+1:]] = true
 				if hangs >= 2 {
@@ -563,9 +605,18 @@ func sweep(mk func() (*sweepWorld, error), blobs []sweepBlob) (*sweepResult, err
 				done := make(chan caseOut, 1)
 				go func() {
 					v, h := func() (viol []string, hung bool) {
-						w.plan.arm(k, mode)
+						w.plan.arm2(k, mode, sp.k2, sp.mode2)
 						cls, exact := doOp(w, sc, blobs, present)
-						_, _, hit := w.plan.disarm()
+						_, lg, hit := w.plan.disarm()
+						tag := tag
+						if sp.k2 >= 0 {
+							// name the second failing call: it may be one the healthy run does not make
+							name2 := "not-made"
+							if sp.k2 < len(lg) {
+								name2 = lg[sp.k2]
+							}
+							tag = fmt.Sprintf("%s/call%d-%s-%c+call%d-%s-%c", sc.name, k, log[k], mode, sp.k2, name2, sp.mode2)
+						}
 						add := func(v string) { viol = append(viol, tag+":"+v) }
 						if cls == "hang" || cls == "panic" {
 							add(cls)
@@ -627,6 +678,13 @@ func sweep(mk func() (*sweepWorld, error), blobs []sweepBlob) (*sweepResult, err
 						for _, v := range checkState(w, blobs, final, map[int]bool{}) {
 							add("after-retry:" + v)
 						}
+						// failures have stopped: the store accepts and serves a blob it has never seen
+						nb := blobs[postBlob]
+						if _, err := blobserver.Receive(ctx, w.sto, nb.ref, bytes.NewReader(nb.val)); err != nil {
+							add("after-failures-stopped:receive-of-a-new-blob-fails")
+						} else if v, c := stores.Fetch(ctx, w.sto, nb.ref); c != "ok" || !bytes.Equal(v, nb.val) {
+							add("after-failures-stopped:new-blob-fetch-" + c)
+						}
 						if w.reindex != nil {
 							if r := w.reindex(); r != "ok" {
 								add("own-recovery-fails:" + r)
@@ -671,13 +729,13 @@ func (r *sweepResult) line(tag string) string {
 	if len(v) > 40 {
 		v = v[:40]
 	}
-	return fmt.Sprintf("%s calls=%s cases=%s faulted=%s not-reached=%d violations=%d %s", tag, strings.Join(calls, ","),
-		strings.Join(cases, ","), strings.Join(names, ","), notReached.Load(), len(r.viol), strings.Join(v, ";"))
+	return fmt.Sprintf("%s calls=%s cases=%s faulted=%s bursts=%d not-reached=%d violations=%d %s", tag, strings.Join(calls, ","),
+		strings.Join(cases, ","), strings.Join(names, ","), r.bursts, notReached.Load(), len(r.viol), strings.Join(v, ";"))
 }
 
 func sweepBlobs(size int) []sweepBlob {
 	var out []sweepBlob
-	for i := 0; i < 6; i++ {
+	for i := 0; i < 7; i++ {
 		v := bytes.Repeat([]byte{byte('p' + i)}, size)
 		if size > 0 {
 			v[0] = byte('0' + i)
@@ -696,11 +754,11 @@ func probeFilesSweep(size int) string {
 		if err != nil {
 			return nil, err
 		}
-		p := &callPlan{at: -1}
+		p := &callPlan{at: -1, at2: -1}
 		sto := files.NewStorage(&planVFS{VFS: files.OSFS(), p: p}, dir)
 		return &sweepWorld{sto: sto, plan: p, dir: dir, close: func() { os.RemoveAll(dir) }}, nil
 	}
-	res, err := sweep(mk, sweepBlobs(size))
+	res, err := sweep(mk, sweepBlobs(size), true)
 	if err != nil {
 		return "bad-op " + err.Error()
 	}
@@ -714,7 +772,7 @@ func probeDiskpackedSweep(size, maxFile int) string {
 		if err != nil {
 			return nil, err
 		}
-		p := &callPlan{at: -1}
+		p := &callPlan{at: -1, at2: -1}
 		s, err := blobserver.CreateStorage("diskpacked", stores.NewLoader(), jsonconfig.Obj{
 			"path": dir, "maxFileSize": float64(maxFile), "metaIndex": newPlanKVConf(p)})
 		if err != nil {
@@ -735,11 +793,11 @@ func probeDiskpackedSweep(size, maxFile int) string {
 			if n, _ := filepath.Glob(filepath.Join(dir, "pack-*.blobs")); len(n) == 0 {
 				return "no-pack-files"
 			}
-			return stores.ErrClass(diskpacked.Reindex(ctx, dir, true, jsonconfig.Obj(newPlanKVConf(&callPlan{at: -1}))))
+			return stores.ErrClass(diskpacked.Reindex(ctx, dir, true, jsonconfig.Obj(newPlanKVConf(&callPlan{at: -1, at2: -1}))))
 		}
 		return w, nil
 	}
-	res, err := sweep(mk, sweepBlobs(size))
+	res, err := sweep(mk, sweepBlobs(size), true)
 	if err != nil {
 		return "bad-op " + err.Error()
 	}
@@ -793,7 +851,7 @@ func probeTreeSweep(size int, tokens []string) string {
 		if err != nil {
 			return nil, err
 		}
-		p := &callPlan{at: -1}
+		p := &callPlan{at: -1, at2: -1}
 		nLeaf := 0
 		sto, err := env.Build(root, func(kind string, s blobserver.Storage) blobserver.Storage {
 			nLeaf++
@@ -807,7 +865,7 @@ func probeTreeSweep(size int, tokens []string) string {
 		w.after = settleTo
 		return w, nil
 	}
-	res, err := sweep(mk, sweepBlobs(size))
+	res, err := sweep(mk, sweepBlobs(size), false)
 	if err != nil {
 		return "bad-op " + err.Error()
 	}
@@ -835,7 +893,7 @@ func probeKVSweep(kind string, size int) string {
 		defer os.Remove(keyFile)
 	}
 	mk := func() (*sweepWorld, error) {
-		p := &callPlan{at: -1}
+		p := &callPlan{at: -1, at2: -1}
 		ld := stores.NewLoader()
 		kv := newPlanKVConf(p)
 		a, b := &memory.Storage{}, &memory.Storage{}
@@ -869,7 +927,7 @@ func probeKVSweep(kind string, size int) string {
 		w.after = settleTo
 		return w, nil
 	}
-	res, err := sweep(mk, blobs)
+	res, err := sweep(mk, blobs, true)
 	if err != nil {
 		return "bad-op " + strings.ReplaceAll(err.Error(), "\n", " ")
 	}
